@@ -17,6 +17,19 @@
 //       own default addSamples(nadd, valinit=TEST).
 //   * "unique" role types (W, C, SEL: one column only, Db.hpp) are only requested at rank 0 for a single column.
 //   * a requested rank is "next" (-1 or the current count) or an existing rank: the harness never requests a gap.
+//
+// Keys. Default: C07:<operation>:<rule> with rule in {counts, columns, cells, new-name, untouched-column-renamed,
+// wrong-column, role-mismatch, return-value} (shadow comparison) or a rule id of c07_db_invariants.hpp. All role-related
+// failures of one step share the key of the first one. Input classes tied to ONE cause get ONE fixed key:
+//   C07:setLocatorsByColIdx:wrong-column                      the roles went to other columns than the ones addressed
+//   C07:setLocator-own-type                                   role (re)assigned to a column that already has that type
+//   C07:addColumns-useSel-with-SEL-role                       addColumns/setColumn(new)(…, ELoc::SEL, …, useSel=true)
+//   C07:setItem-useSel                                        setItem(name, values, useSel=true) (normally dies in ASan first)
+//   C07:name-as-pattern:own-name-designates-another-column    state: a name read as a regex also matches another column
+//   C07:name-as-pattern:deleteColumnByColIdx | :setName(list) operations that go through such a name
+//   C07:isUIDDefined:inconsistent-with-getColIdxByUID         state: getter answer, independent of the last operation
+// After a failure the Db is repaired through public calls (clearLocators, setNameByUID, setArray on the selection), the
+// shadow is re-read from the Db and the history goes on; it is abandoned only if the repair does not restore the rules.
 #include "common/vh.hpp"
 #include "common/c07_shadow.hpp"
 
@@ -591,7 +604,8 @@ static bool gen_rename(Rng& r, const Shadow& s, Op& op)
         // a pattern, matches the intermediate name "nn.<i>" of an earlier target designates that target again
         for (size_t j = 1; j < names.size(); j++)
           for (size_t i = 0; i < j; i++)
-            if (nameMatches(names[j], nn + "." + std::to_string(i + 1)) == 1) e.cls = "name-as-pattern:setName(list)";
+            if (names[j] != nn + "." + std::to_string(i + 1) && nameMatches(names[j], nn + "." + std::to_string(i + 1)) == 1)
+              e.cls = "name-as-pattern:setName(list)";
         db->setName(VS(names), nn);
         break;
       case 2: db->setNameByUID(uids[0], nn); break;
